@@ -483,11 +483,14 @@ class Resource(object):
             return start_obj.eResource.uuid_dict[path]
 
         features = (x for x in path.split('/') if x)
-        feat_info = (x.split('.') for x in features)
         obj = start_obj
         annot_content = False
-        for feat in feat_info:
-            key, index = feat if len(feat) > 1 else (feat[0], None)
+        for feat in features:
+            # only '@feature.position' has a position: a dot elsewhere is
+            # part of a name ('org.example')
+            key, index = feat, None
+            if feat.startswith('@') and '.' in feat:
+                key, _, index = feat.partition('.')
             if key.startswith('@'):
                 tmp_obj = obj.__getattribute__(key[1:])
                 try:
